@@ -108,6 +108,9 @@ def parse_modifies(run, texts, env, fi=None, dyn_cls=None):
     return out
 
 
+SHARED_FIELDS = ('arms', 'rng')      # the arm list and the generator are shared with the owner, not part of `x.**`
+
+
 def reachable(st, loc, acc=None):
     acc = set() if acc is None else acc
     if loc in acc:
@@ -115,7 +118,9 @@ def reachable(st, loc, acc=None):
     acc.add(loc)
     o = st.heap.get(loc)
     if isinstance(o, Obj):
-        for v in o.fields.values():
+        for f, v in o.fields.items():
+            if f in SHARED_FIELDS and o.cls not in ('_NumpyRNG', 'np.Generator'):
+                continue
             _reach_val(st, v, acc)
     elif isinstance(o, ListO):
         for v in o.items:
@@ -142,7 +147,9 @@ def havoc(run, descs, dyn_cls_of=None):
                 _havoc_obj(run, loc)
         elif d[0] == 'vals':
             m = st.heap[d[1]]
-            if isinstance(m, MapO):
+            if isinstance(m, SeqO):
+                st.heap[d[1]] = SeqO(m.skind, fresh('hv_seq', m.term.sort()))
+            elif isinstance(m, MapO):
                 nm = m
                 for c, arr in m.cols.items():
                     nm = nm.with_col(c, fresh('hv_' + (c or 'v'), arr.sort()))
@@ -377,6 +384,8 @@ def frame_obligations(run, entry, descs, roots, props):
                 g = z3.Implies(z3.And(*hyp) if hyp else z3.BoolVal(True), a1[b] == a0[b])
                 run.emit('frame', g, '%s[other keys]%s' % (nm, ('.' + c) if c else ''), props=props)
         elif isinstance(o0, SeqO):
+            if loc in vals_ok:
+                continue
             if not z3.eq(o0.term, o1.term):
                 run.emit('frame', o0.term == o1.term, nm, props=props)
         elif isinstance(o0, ListO):
